@@ -229,8 +229,33 @@ def _collect(shard, seed, n):
     return col
 
 
+def _rendezvous_sweep(args):
+    """Bounded exhaustive sweep: the consumer pauses at its n-th source line inside get_message() / get_postprocess_recv_message()
+    until the state machine thread has signalled its next hand-over (so the signal lands between any test and the wait / clear
+    that follows it); k messages arriving 20 ms apart, consumer started before or after the data."""
+    role, func, first, nmax = args
+    common.bootstrap()
+    from .. import refdict
+    refdict.all_classes()
+    col = Collector(PID, RULE)
+    for k in (1, 2, 3):
+        for n in range(1, nmax + 1):
+            for consumers in (1, 2):
+                case = {"role": role, "msgs": [{"kind": "req", "size": 0}] * k, "seg": "aligned", "cuts": [], "hp": 1, "consumers": consumers,
+                        "sched": [], "lines": False, "gen2": None, "gaps": [0.02], "consumers_first": first,
+                        "holds": [["consumer-0", "line:" + func, n, 2.0, "PSM", "event.set"]]}
+                vs, info = run_one(case)
+                col.record(case, vs, nontrivial=True, classes=["rendezvous-sweep", "role=" + role, f"consumers={consumers}"])
+    return col
+
+
 def main(ctx):
     col = common.run_shards(_collect, 8 if ctx.quick else 16, ctx.seed, n=140 if ctx.quick else 2500)
+    nmax = 10 if ctx.quick else 24
+    jobs = [(role, func, first, nmax) for role in ("client", "server") for func in ("get_message", "get_postprocess_recv_message") for first in (False, True)]
+    for part in common.pmap(_rendezvous_sweep, jobs):
+        col.merge(part)
+    col.extra["rendezvous_sweep"] = f"{len(jobs)} scenarios x 3 message counts x {nmax} line positions x 1-2 consumers"
     for path, rec in common.load_replays(PID):
         col.record(rec["case"], run_case(rec["case"]), nontrivial=True, classes=["replay"])
     ctx.required_classes = ["message-spans-reads", "messages-share-a-read", "prefix-with-switch", "preempted-at-source-line",
